@@ -290,3 +290,14 @@ def replay(ctx, payload):
         return False
     d0 = Z.wall_dt(z, c["w"], 0)
     return tz.datetime_exists(d0) == (len(pre) >= 1) and tz.datetime_ambiguous(d0) == (len(pre) == 2)
+
+
+# --- appended by the translator tie (wt-iso): the tz lookup functions re-translated from tz/tz.py and tz/_common.py
+# (Generated/TzKernels.lean, ops tzgen.*) are compared with the implementation's methods on every run
+_correspondence_without_tzgen = correspondence
+
+
+def correspondence(ctx):
+    _correspondence_without_tzgen(ctx)
+    import tzgenlib
+    tzgenlib.validate(ctx, quick_zones=8, quick_syn=8)
